@@ -14,14 +14,15 @@ From AK Require Import Base.Prelude Bytes.Text Bytes.FabHeader Bytes.BinFile
    enabled binary checks passed on every validated level.  In failing mode
    "not good" raises, in non-failing mode it evaluates false without raising:
    both are the same boolean (Taster.__init__ catches every exception). *)
-Theorem C04_good_inv : forall o limit d, taste_good o limit d = true ->
+Theorem C04_good_inv : forall close o limit d, taste_good close o limit d = true ->
   exists ht op lvs,
     pd_header d = Some ht /\ open_header ht limit = Some op /\
     open_levels d op (t_data o) = Some lvs /\
     Forall (fun lc => check_structure (fst lc) (snd lc) = true) lvs /\
     (t_headers o = true -> Forall (fun lc => check_headers (blen (o_keys op)) (fst lc) (snd lc) = true) lvs) /\
     (t_shape o = true -> Forall (fun lc => check_shape (blen (o_keys op)) (fst lc) (snd lc) = true) lvs) /\
-    (t_data o = true -> t_headers o = true /\ t_shape o = true).
+    (t_data o && negb (t_headers o && t_shape o) = true ->
+     Forall (fun lc => check_data close (blen (o_keys op)) (fst lc) (snd lc) = true) lvs).
 Proof. exact taste_good_inv. Qed.
 Print Assumptions C04_good_inv.
 
@@ -39,7 +40,7 @@ Theorem C04_missing_file : forall (lc : ldir * cellh) f,
 Proof. exact taste_rejects_missing_file. Qed.
 Print Assumptions C04_missing_file.
 
-Theorem C04_missing_header : forall o limit d, pd_header d = None -> taste_good o limit d = false.
+Theorem C04_missing_header : forall close o limit d, pd_header d = None -> taste_good close o limit d = false.
 Proof. exact taste_rejects_missing_header. Qed.
 Print Assumptions C04_missing_header.
 
